@@ -157,6 +157,7 @@ def ident_tables(ctx, fn, result_enum, need_scope=True):
 
 def run(ctx):
     _run_main(ctx)
+    profile_fields_parsed_from_their_attributes(ctx)
     acp_cache_refreshed_everywhere(ctx)
 
 
@@ -567,3 +568,28 @@ def acp_cache_refreshed_everywhere(ctx):
     check_setting(ctx, "K2-acp-cache-refreshed", "ACP", "reload_accesscontrols",
                   "the loaded access control profiles stay stale on this server: a grant removed (or a protection added) elsewhere is not enforced here",
                   ("EntryClass::AccessControlProfile",))
+
+
+# ---------------------------------------------------------------------------------------------------------------------
+# A grant is what the parser makes of the stored profile: each field of AccessControlCreate / AccessControlModify (and the
+# receiver / target of the shared AccessControlProfile) must be read from its own attribute, with the documented
+# acp_modify_class fallback for the two class lists and nothing else (shared engine rules/lib/x_fields.py).
+
+PROFILES = "kanidmd_lib::server::access::profiles::"
+PROFILE_FIELDS = [
+    (PROFILES + "AccessControlCreate::try_from", PROFILES + "AccessControlCreate",
+     {"classes": {"AcpCreateClass"}, "attrs": {"AcpCreateAttr"}}),
+    (PROFILES + "AccessControlModify::try_from", PROFILES + "AccessControlModify",
+     {"presattrs": {"AcpModifyPresentAttr"}, "remattrs": {"AcpModifyRemovedAttr"},
+      "pres_classes": {"AcpModifyPresentClass", "AcpModifyClass"}, "rem_classes": {"AcpModifyRemoveClass", "AcpModifyClass"}}),
+    (PROFILES + "AccessControlProfile::try_from", PROFILES + "AccessControlProfile",
+     {"receiver": {"AcpReceiverGroup"}, "target": {"AcpTargetScope"}}),
+]
+
+
+def profile_fields_parsed_from_their_attributes(ctx):
+    from .lib.x_fields import check_field_sources
+    n = check_field_sources(ctx, LIB, "K5-profile-fields", PROFILE_FIELDS,
+                            "a write is then checked against a grant the administrator did not store (e.g. the class-removal list "
+                            "silently inherits the class-addition list)", prefix="Acp")
+    ctx.floor("K5-profile-fields", "profile fields traced to their attributes", n, 8)
